@@ -44,6 +44,11 @@ def build(rng, i, n, order, grace, kinds=ALL_KINDS, transport="u"):
         m = rng.choice(["GET", "POST", "HEAD"]) if fr == "none" else "POST"
         r = AReq(method=m, target="/q" + tag, version="1.1", headers=[("Host", "h")], framing=fr,
                  body=body_bytes(tag, rng.choice([1, 100, 1024])) if fr == "cl" else b"")
+        vk = rng.below(6)
+        if vk == 0:
+            r.version, r.conn = "1.0", "keep-alive"        # identity framing is forced
+        elif vk == 1:
+            r.headers.append(("TE", "identity"))
         stream += r.render()
         fin, st, rb = finisher(rng, tag, kinds)
         reads = rng.choice([[], [], [(None, 512)]])
